@@ -6,22 +6,22 @@ from math import pi, inf
 
 
 def resistor_translator(element: elm.Resistor, nodes: tuple[str, ...]) -> ccp.Component:
-    return ccp.resistor(id=element.name, nodes=(nodes[0], nodes[1]), R=element.R)
+    return ccp.resistor(id=element.name, nodes=(nodes[0], nodes[1]) if not element.is_reverse else (nodes[1], nodes[0]), R=element.R)
 
 def impedance_translator(element: elm.Impedance, nodes: tuple[str, ...]) -> ccp.Component:
-    return ccp.impedance(id=element.name, nodes=(nodes[0], nodes[1]), Z=element.Z)
+    return ccp.impedance(id=element.name, nodes=(nodes[0], nodes[1]) if not element.is_reverse else (nodes[1], nodes[0]), Z=element.Z)
 
 def conductance_translator(element: elm.Conductance, nodes: tuple[str, ...]) -> ccp.Component:
-    return ccp.conductance(nodes=(nodes[0], nodes[1]), id=element.name, G=element.G)
+    return ccp.conductance(nodes=(nodes[0], nodes[1]) if not element.is_reverse else (nodes[1], nodes[0]), id=element.name, G=element.G)
 
 def capacitor_translator(element: elm.Capacitor, nodes: tuple[str, ...]) -> ccp.Component:
-    return ccp.capacitor(nodes=(nodes[0], nodes[1]), id=element.name, C=element.C)
+    return ccp.capacitor(nodes=(nodes[0], nodes[1]) if not element.is_reverse else (nodes[1], nodes[0]), id=element.name, C=element.C)
 
 def inductance_translator(element: elm.Inductance, nodes: tuple[str, ...]) -> ccp.Component:
-    return ccp.inductance(nodes=(nodes[0], nodes[1]), id=element.name, L=element.L)
+    return ccp.inductance(nodes=(nodes[0], nodes[1]) if not element.is_reverse else (nodes[1], nodes[0]), id=element.name, L=element.L)
 
 def lamp_translator(element: elm.Lamp, nodes: tuple[str, ...]) -> ccp.Component:
-    return ccp.lamp(nodes=(nodes[0], nodes[1]), id=element.name, P=element.P_ref, V_ref=element.V_ref)
+    return ccp.lamp(nodes=(nodes[0], nodes[1]) if not element.is_reverse else (nodes[1], nodes[0]), id=element.name, P=element.P_ref, V_ref=element.V_ref)
 
 def ground_translator(element: elm.Ground, nodes: tuple[str, ...]) -> ccp.Component:
     return ccp.ground(nodes=(nodes[0],), id=element.name)
@@ -162,8 +162,8 @@ def short_circuit_translator(element: elm.LabeledLine, nodes: tuple[str, ...]) -
 
 def switch_translator(element: elm.Switch, nodes: tuple[str, ...]) -> ccp.Component | None:
     if element.state == element.state.OPEN:
-        return ccp.resistor(nodes=(nodes[0], nodes[1]), id=element.name, R=inf)
-    return ccp.resistor(nodes=(nodes[0], nodes[1]), id=element.name, R=1e-12)
+        return ccp.resistor(nodes=(nodes[0], nodes[1]) if not element.is_reverse else (nodes[1], nodes[0]), id=element.name, R=inf)
+    return ccp.resistor(nodes=(nodes[0], nodes[1]) if not element.is_reverse else (nodes[1], nodes[0]), id=element.name, R=1e-12)
 
 def none_translator(*_) -> None:
     return None
